@@ -168,3 +168,23 @@ def _tokio_spawn(I, a, ci, dt):
 @reg('task::yield_now')
 def _yield_now(I, a, ci, dt):
     return ReadyFut(UNIT)
+
+
+# ------------------------------------------------------------------ the machine
+
+@reg('available_parallelism', 'thread::available_parallelism')
+def _available_parallelism(I, a, ci, dt):
+    """The number of cores is an input of the run: one symbolic value in [1, 16] per path."""
+    n = getattr(I, '_cores', None)
+    if n is None:
+        n = I.fresh_int('cores', 1, 16)
+        I._cores = n
+    return Ok(Struct('NonZero', (n,)))
+
+
+@reg('NonZero::get', 'NonZeroUsize::get')
+def _nonzero_get(I, a, ci, dt):
+    v = a[0]
+    while isinstance(v, Ref):
+        v = I.load(v)
+    return v.f[0]
